@@ -5,6 +5,9 @@ import os
 import sys
 
 
+CASE = [None]     # index of the case being replayed (for replay files)
+
+
 def boot():
     exp = os.environ['VERIF_EXPECT_SRC']
     impl = os.environ['VERIF_IMPL']
